@@ -218,6 +218,17 @@ Theorem select_bgp_spec : forall c ops n tps,
 Proof. exact select_bgp_spec_l. Qed.
 Print Assumptions select_bgp_spec.
 
+Theorem select_vars_bgp_spec : forall c ops n tps vs cols,
+  let st := reach c ops in
+  bgp_plain n tps -> render_injective_on (graph_terms (triples st)) ->
+  pat_cols (PBgp tps) = Some cols -> vs <> [] -> (forall v, In v vs -> In v cols) ->
+  exists rows,
+    run_select st (Query false (ProjVars vs) (PBgp tps) [] None None) = Done (vs, rows) /\
+    Permutation rows
+      (map (map render_rcell) (snd (eval_query n (triples st) (Query false (ProjVars vs) (PBgp tps) [] None None)))).
+Proof. exact select_vars_bgp_spec_l. Qed.
+Print Assumptions select_vars_bgp_spec.
+
 Theorem count_bgp_spec : forall c ops n tps,
   let st := reach c ops in
   bgp_plain n tps -> render_injective_on (graph_terms (triples st)) ->
